@@ -252,3 +252,29 @@ def as_dict_call(n):
                      keywords=[ast.copy_location(ast.keyword(arg=k.value, value=v), k) for k, v in zip(n.keys, n.values)])
         return ast.copy_location(c, n)
     return None
+
+
+def inline_locals(fn_node, e, depth: int = 3):
+    """a copy of expression ``e`` with every local that is bound exactly once (a plain `name = <call / attribute / subscript chain>`,
+    not a parameter, not a loop variable) replaced by its value — `t = a.f(); v = t.g()` reads as `a.f().g()` — to ``depth`` hops"""
+    import copy as _copy
+    params = {a.arg for a in fn_node.args.posonlyargs + fn_node.args.args + fn_node.args.kwonlyargs}
+    stores = {}
+    for n in ast.walk(fn_node):
+        if isinstance(n, ast.Name) and isinstance(n.ctx, (ast.Store, ast.Del)):
+            stores[n.id] = stores.get(n.id, 0) + 1
+    defs = {}
+    for n in ast.walk(fn_node):
+        if isinstance(n, ast.Assign) and len(n.targets) == 1 and isinstance(n.targets[0], ast.Name) and stores.get(n.targets[0].id) == 1 and \
+                n.targets[0].id not in params and isinstance(n.value, (ast.Call, ast.Attribute, ast.Subscript)):
+            defs[n.targets[0].id] = n.value
+
+    class T(ast.NodeTransformer):
+        def __init__(self, d):
+            self.d = d
+
+        def visit_Name(self, n):
+            if isinstance(n.ctx, ast.Load) and n.id in defs and self.d > 0:
+                return T(self.d - 1).visit(_copy.deepcopy(defs[n.id]))
+            return n
+    return T(depth).visit(_copy.deepcopy(e))
